@@ -1,11 +1,51 @@
 package main
 
-import "math/rand"
+import (
+	"math/rand"
+
+	"github.com/B1NARY-GR0UP/originium/pkg/filter"
+	"github.com/B1NARY-GR0UP/originium/types"
+)
 
 func runMoreSuites(suite string, r *rand.Rand, res *Result, thorough bool) bool {
-	return false
+	scale := func(q, t int) int {
+		if thorough {
+			return t
+		}
+		return q
+	}
+	switch suite {
+	case "levels":
+		s := Suite{Name: "levels", DriverSuite: "levels", Exec: levelsExec}
+		res.Rule = "random table layouts through the verif level manager (flushToL0 / checkAndCompact / recover / searchLowerBound): 1-5 user keys x 2-9 versions, block sizes 1..200 bytes, L0TargetNum 1-4, LevelRatio 1-3, watermark 0..maxTs+1; after every compaction every (key, ts) of the universe is looked up; non-trivial = the case compacts, recovers, uses one-entry blocks or a positive watermark"
+		runCases(s, levelsGen(r, scale(150, 2500), false), res)
+		runCases(s, levelsGen(r, scale(100, 2500), true), res)
+	default:
+		return false
+	}
+	return true
+}
+
+func moreSuiteByName(name string) (Suite, bool) {
+	switch name {
+	case "levels":
+		return Suite{Name: "levels", DriverSuite: "levels", Exec: levelsExec}, true
+	}
+	return Suite{}, false
 }
 
 // filterDims checks that filter.New never produces an empty bitset (m > 0) for n = 1..max
 func filterDims(res *Result, max int) {
+	bad := 0
+	for n := 1; n <= max; n++ {
+		f := filter.New(n, 0.01)
+		m, k := f.VerifDims()
+		if m <= 0 || k < 0 {
+			bad++
+			res.Mismatches = append(res.Mismatches, Mismatch{Kind: "impl-vs-model", Op: "filter.New", Impl: "m<=0", Ops: []string{"n=" + itoa(n)}})
+		}
+	}
+	_ = types.Entry{}
+	res.count("filter-dims-checked", max)
+	res.Evaluations += max
 }
